@@ -139,26 +139,40 @@ func streamEntry(t reflect.Type, name string) streamFn {
 	return nil
 }
 
-// fixedSpecs: the chunkings applied to every round-trip value.
-func fixedSpecs(n int) []chunkSpec {
+// fixedSpecs: the chunkings applied to a round-trip value. full=false (values with two or more fields off default, the
+// bulk): chunk sizes 1, 3, 7, len/3 and the two special reader behaviours with 1-byte chunks on a direct reader.
+func fixedSpecs(n int, full bool) []chunkSpec {
 	var out []chunkSpec
+	sizes, special := []int{1, 2, 3, 7, 64, n / 3, n/2 - 1}, []int{1, 7, n / 3}
+	if !full {
+		sizes, special = []int{1, 3, 7, n / 3}, []int{1}
+		if n > 1024 {
+			sizes, special = []int{7, n / 3}, nil // large values: the cost of a decode is proportional to the size
+		}
+	}
 	seen := map[int]bool{}
-	for _, k := range []int{1, 2, 3, 7, 64, n / 3, n/2 - 1} {
+	for _, k := range sizes {
 		if k < 1 || seen[k] {
 			continue
 		}
 		seen[k] = true
 		for _, d := range []bool{false, true} {
+			if !full && !d && k != 3 {
+				continue // the bufio-wrapped kind (a 4 KiB buffer per decode) for one chunk size only
+			}
 			out = append(out, chunkSpec{Fixed: k, Direct: d})
 		}
 	}
 	seen = map[int]bool{}
-	for _, k := range []int{1, 7, n / 3} {
+	for _, k := range special {
 		if k < 1 || seen[k] {
 			continue
 		}
 		seen[k] = true
 		for _, d := range []bool{false, true} {
+			if !full && !d {
+				continue
+			}
 			out = append(out, chunkSpec{Fixed: k, Direct: d, EOF: true}, chunkSpec{Fixed: k, Direct: d, Zero: true})
 		}
 	}
@@ -173,17 +187,27 @@ func popcount(m uint32) int {
 	return c
 }
 
-// compositionSpecs: every way to cut an n-byte input (n <= allUpTo), every way into <= 4 chunks (n <= 24).
+// compositionSpecs: every way to cut an n-byte input when n <= allUpTo (both reader kinds); every way with at most 3
+// cuts when n <= allUpTo+8 and with at most 2 cuts when n <= 24 (direct reader; three reads of one payload need two cuts).
 func compositionSpecs(n, allUpTo int, f func(chunkSpec)) {
 	if n < 2 || n > 24 {
 		return
 	}
+	maxCuts := 32
+	if n > allUpTo {
+		maxCuts = 3
+	}
+	if n > allUpTo+8 {
+		maxCuts = 2
+	}
 	for m := uint32(1); m < 1<<uint(n-1); m++ {
-		if n > allUpTo && popcount(m) > 3 {
+		if popcount(m) > maxCuts {
 			continue
 		}
 		f(chunkSpec{Mask: m, Direct: true})
-		f(chunkSpec{Mask: m, Direct: false})
+		if n <= allUpTo {
+			f(chunkSpec{Mask: m, Direct: false})
+		}
 	}
 }
 
@@ -201,7 +225,7 @@ func (x *executor) chunked(r *root, ep string, sfn streamFn, in []byte, ref stre
 	var err error
 	c := guard(func() { q, n, err = sfn(spec.reader(in)) })
 	x.res.Counters["chunked_stream_decodes"]++
-	key := "stream-decode-depends-on-reader:" + spec.behaviour() + ":"
+	key := "stream-decode-depends-on-reader:" + spec.behaviour()
 	replay := func() interface{} {
 		return map[string]interface{}{"phase": "chunked-stream", "type": r.Name, "entry": ep, "input": hexOf(in), "reader": spec, "found_in": phase}
 	}
@@ -210,32 +234,32 @@ func (x *executor) chunked(r *root, ep string, sfn streamFn, in []byte, ref stre
 	case c.panicked:
 		x.violation("decode-panic:"+c.site+":"+errClass(fmt.Sprint(c.val)), desc+fmt.Sprintf(": panic %v  input=%s", c.val, hexOf(in)), replay())
 	case (err == nil) != (ref.err == nil):
-		x.violation(key+"verdict", desc+fmt.Sprintf(": error %v, but %v when the same bytes arrive in one piece  input=%s", err, ref.err, hexOf(in)), replay())
+		x.violation(key, desc+fmt.Sprintf(": error %v, but %v when the same bytes arrive in one piece  input=%s", err, ref.err, hexOf(in)), replay())
 	case err != nil:
 		if errClass(err.Error()) != errClass(ref.err.Error()) {
-			x.violation(key+"error", desc+fmt.Sprintf(": error %q, but %q when the same bytes arrive in one piece  input=%s", err, ref.err, hexOf(in)), replay())
+			x.violation(key, desc+fmt.Sprintf(": error %q, but %q when the same bytes arrive in one piece  input=%s", err, ref.err, hexOf(in)), replay())
 		}
 	default:
 		if m := diff(ref.val.Elem(), q.Elem(), r.Name); m != nil {
-			x.violation(key+"value", desc+fmt.Sprintf(": decoded value differs at %s (%s) from the value decoded when the same bytes arrive in one piece  input=%s", m.Path, m.What, hexOf(in)), replay())
+			x.violation(key, desc+fmt.Sprintf(": decoded value differs at %s (%s) from the value decoded when the same bytes arrive in one piece  input=%s", m.Path, m.What, hexOf(in)), replay())
 		} else if n != ref.n {
-			x.violation(key+"consumed-bytes", desc+fmt.Sprintf(": %d bytes consumed, %d when the same bytes arrive in one piece", n, ref.n), replay())
+			x.violation(key, desc+fmt.Sprintf(": %d bytes consumed, %d when the same bytes arrive in one piece", n, ref.n), replay())
 		}
 	}
 }
 
 // chunkedValue: all chunkings of a valid encoding e of value p for the streaming entry point ep.
-func (x *executor) chunkedValue(r *root, ep string, p reflect.Value, e []byte, allUpTo int) {
+func (x *executor) chunkedValue(r *root, ep string, p reflect.Value, e []byte, allUpTo int, full bool) {
 	sfn := streamEntry(r.T, ep)
 	if sfn == nil || len(e) > readerLimit-64 {
 		return
 	}
 	ref := streamRef{val: p, n: int64(len(e))}
 	x.curSize = len(e)
-	for _, spec := range fixedSpecs(len(e)) {
+	for _, spec := range fixedSpecs(len(e), full) {
 		x.chunked(r, ep, sfn, e, ref, spec, "round-trip")
 	}
-	if len(e) <= 24 {
+	if full && len(e) <= 24 { // values with at most one field off default (and zero / real / fitted values)
 		h := string(e) + "|" + ep
 		if !x.composed[h] {
 			x.composed[h] = true
@@ -246,4 +270,4 @@ func (x *executor) chunkedValue(r *root, ep string, p reflect.Value, e []byte, a
 }
 
 // hostileSpecs: the chunkings applied to every hostile input of a streaming entry point.
-var hostileSpecs = []chunkSpec{{Fixed: 1, Direct: false}, {Fixed: 3, Direct: true}, {Fixed: 7, Direct: true, EOF: true}, {Fixed: 2, Direct: false, Zero: true}}
+var hostileSpecs = []chunkSpec{{Fixed: 1, Direct: false}, {Fixed: 3, Direct: true}, {Fixed: 7, Direct: true, EOF: true}}
